@@ -542,7 +542,84 @@ impl<'t, 'a> FnGen<'t, 'a> {
         stmts
     }
 
+    /// A program built around what a call site sees: `apply` calls `helper`; `wrapper` brings something else of that
+    /// name into being (a local function, a parameter, a local variable) and then calls `apply`; the top level calls
+    /// `apply` and `wrapper` in a generated order, so the same call site runs with different things visible under the
+    /// name, before and after the scope that held them has ended.
+    fn visibility_program(&mut self) -> Program {
+        let helper = self.fresh();
+        let apply = self.fresh();
+        let wrapper = self.fresh();
+        let (x, v, w) = (self.fresh(), self.fresh(), self.fresh());
+        let mut s: Vec<Stmt> = vec![];
+        for (k, g) in self.globals.clone().iter().enumerate() {
+            s.push(put(num((k * 10) as f64), g));
+        }
+        let global_helper = !self.t.chance(1, 4);
+        if global_helper {
+            s.push(Stmt::Function { name: helper.clone(), params: vec![x.clone()], body: vec![Stmt::Return { value: bin(BinOp::Plus, var(&x), num(100.0)) }] });
+        }
+        // apply: one or two call sites of helper, possibly inside a loop (the same site runs several times in one call)
+        let site = call(&helper, vec![var(&v)]);
+        let apply_body = match self.t.pick(3) {
+            0 => vec![Stmt::Return { value: site }],
+            1 => vec![say(site.clone()), Stmt::Return { value: site }],
+            _ => {
+                let n = self.fresh();
+                vec![
+                    put(num(0.0), &n),
+                    Stmt::While {
+                        cond: bin(BinOp::Less, var(&n), num(2.0)),
+                        body: vec![Stmt::Inc { dest: idn(&n), amount: 1 }, say(site.clone())],
+                    },
+                    Stmt::Return { value: site },
+                ]
+            }
+        };
+        s.push(Stmt::Function { name: apply.clone(), params: vec![v.clone()], body: apply_body });
+        // wrapper
+        let kind = self.t.pick(4);
+        let mut wparams = vec![w.clone()];
+        let mut wbody: Vec<Stmt> = vec![];
+        match kind {
+            0 | 1 => wbody.push(Stmt::Function { name: helper.clone(), params: vec![x.clone()], body: vec![Stmt::Return { value: bin(BinOp::Plus, var(&x), num(1.0)) }] }),
+            2 => wparams.push(helper.clone()),
+            _ => {
+                if !global_helper {
+                    wbody.push(put(num(5.0), &helper));
+                } else {
+                    wbody.push(Stmt::Function { name: helper.clone(), params: vec![x.clone()], body: vec![Stmt::Return { value: bin(BinOp::Multiply, var(&x), num(2.0)) }] });
+                }
+            }
+        }
+        if self.t.chance(1, 3) {
+            wbody.push(say(call(&apply, vec![var(&w)])));
+        }
+        wbody.push(Stmt::Return { value: call(&apply, vec![var(&w)]) });
+        s.push(Stmt::Function { name: wrapper.clone(), params: wparams.clone(), body: wbody });
+        // the top level
+        let n = 3 + self.t.pick(4);
+        for k in 0..n {
+            let arg = num((k + 1) as f64);
+            let e = if self.t.chance(1, 2) {
+                call(&apply, vec![arg])
+            } else if wparams.len() == 2 {
+                call(&wrapper, vec![arg, num(7.0)])
+            } else {
+                call(&wrapper, vec![arg])
+            };
+            s.push(say(e));
+        }
+        for g in self.globals.clone() {
+            s.push(say(var(&g)));
+        }
+        Program::single(s)
+    }
+
     pub fn program(&mut self) -> Program {
+        if self.t.chance(1, 12) {
+            return self.visibility_program();
+        }
         let mut s: Vec<Stmt> = vec![];
         // globals
         for (k, g) in self.globals.clone().iter().enumerate() {
